@@ -6,6 +6,7 @@ package main
 // lower-cased); the formula is then evaluated to a DFA over all of Unicode.
 
 import (
+	"os"
 	"fmt"
 	"go/constant"
 	"go/token"
@@ -171,6 +172,7 @@ type Summarizer struct {
 	// (patterns, tables, structs) to the caller's values
 	ValueParams map[ssa.Value]ssa.Value
 	loopCache map[*ssa.Function][]*scanLoop
+	enumLoops map[*ssa.Function][]*enumLoop
 	loopOK    map[*ssa.Function]bool
 	Inexact   []string
 	// InexactIn[i] is the function holding the value dropped in Inexact[i] (nil when not known).
@@ -338,6 +340,7 @@ func isStringish(t types.Type) bool {
 }
 
 func constOf(v ssa.Value) (constant.Value, bool) {
+	v = boundElem(v)
 	c, ok := v.(*ssa.Const)
 	if !ok {
 		return nil, false
@@ -346,6 +349,7 @@ func constOf(v ssa.Value) (constant.Value, bool) {
 }
 
 func constString(v ssa.Value) (string, bool) {
+	v = boundElem(v)
 	// a package-level string variable that only its package initialiser stores to, with a constant value
 	if u, ok := v.(*ssa.UnOp); ok && u.Op == token.MUL {
 		if g, ok := u.X.(*ssa.Global); ok && (isStringish(u.Type()) || isByteSlice(u.Type())) {
@@ -408,6 +412,7 @@ func constString(v ssa.Value) (string, bool) {
 }
 
 func constInt(v ssa.Value) (int64, bool) {
+	v = boundElem(v)
 	for {
 		if x, ok := v.(*ssa.Convert); ok {
 			v = x.X
@@ -432,6 +437,7 @@ func (s *Summarizer) regexOf(v ssa.Value) *RegexConst {
 
 // resolveValue follows the bindings of helper parameters to the values of their callers.
 func (s *Summarizer) resolveValue(v ssa.Value) ssa.Value {
+	v = boundElem(v)
 	for i := 0; i < 6; i++ {
 		w, ok := s.ValueParams[v]
 		if !ok {
@@ -525,6 +531,9 @@ func (s *Summarizer) resolveRegex(v ssa.Value, depth int) *RegexConst {
 				return s.regexInGlobalField(g, x.Field, depth)
 			}
 		}
+		if g, ok := s.structRoot(base); ok {
+			return s.regexInGlobalField(g, x.Field, depth)
+		}
 	case *ssa.UnOp:
 		if x.Op != token.MUL {
 			return nil
@@ -553,6 +562,9 @@ func (s *Summarizer) resolveRegex(v ssa.Value, depth int) *RegexConst {
 		case *ssa.FieldAddr:
 			base := s.resolveValue(a.X)
 			if g, ok := base.(*ssa.Global); ok {
+				return s.regexInGlobalField(g, a.Field, depth)
+			}
+			if g, ok := s.structRoot(base); ok {
 				return s.regexInGlobalField(g, a.Field, depth)
 			}
 			// the local copy of a struct parameter (value receiver) that stands for a package-level struct
@@ -623,6 +635,25 @@ func staticCallee(c *ssa.CallCommon) *ssa.Function {
 		return nil
 	}
 	f, _ := c.Value.(*ssa.Function)
+	if f == nil && elemBind != nil {
+		// the current element of an unrolled loop over a constant collection of functions
+		v := boundElem(c.Value)
+		for {
+			if ct, ok := v.(*ssa.ChangeType); ok {
+				v = ct.X
+				continue
+			}
+			break
+		}
+		switch y := v.(type) {
+		case *ssa.Function:
+			return y
+		case *ssa.MakeClosure:
+			if len(y.Bindings) == 0 {
+				f, _ = y.Fn.(*ssa.Function)
+			}
+		}
+	}
 	return f
 }
 
@@ -663,6 +694,9 @@ func (s *Summarizer) valueForm(v ssa.Value, env termEnv) *Form {
 	defer func() { s.depth-- }()
 	if s.depth > 30 {
 		return fUnknown("depth")
+	}
+	if _, isPrm := v.(*ssa.Parameter); isPrm || elemBind != nil {
+		v = s.resolveValue(v)
 	}
 	switch x := v.(type) {
 	case *ssa.Const:
@@ -1225,7 +1259,16 @@ func (s *Summarizer) blockCond(b *ssa.BasicBlock, env termEnv, what string) *For
 		}
 		return nil
 	}
-	if canonical && inLoop(b) == nil {
+	enums := s.enumLoops[b.Parent()]
+	inEnum := func(x *ssa.BasicBlock) *enumLoop {
+		for _, l := range enums {
+			if l.Blocks[x] {
+				return l
+			}
+		}
+		return nil
+	}
+	if canonical && inLoop(b) == nil && inEnum(b) == nil {
 		memo := map[*ssa.BasicBlock]*Form{}
 		var cond func(x *ssa.BasicBlock) *Form
 		// edge: condition of reaching x through its predecessor p (p not inside a loop)
@@ -1277,6 +1320,17 @@ func (s *Summarizer) blockCond(b *ssa.BasicBlock, env termEnv, what string) *For
 					alts = append(alts, fAnd(entry(l), atom(l.edgeAtom(t, p, x))))
 					continue
 				}
+				if el := inEnum(p); el != nil {
+					// a loop over a constant collection, left along p→x: unrolled
+					var ent []*Form
+					for _, q := range el.Header.Preds {
+						if !el.Blocks[q] {
+							ent = append(ent, edge(q, el.Header))
+						}
+					}
+					alts = append(alts, s.enumExit(el, p, x, fOr(ent...), env, what))
+					continue
+				}
 				alts = append(alts, edge(p, x))
 			}
 			var f *Form
@@ -1309,6 +1363,94 @@ func (s *Summarizer) blockCond(b *ssa.BasicBlock, env termEnv, what string) *For
 		return fTrue()
 	}
 	return fAnd(fs...)
+}
+
+// enumExit: the condition of leaving the unrolled loop el along the edge p→x, given the condition of entering it.
+func (s *Summarizer) enumExit(el *enumLoop, p, x *ssa.BasicBlock, entry *Form, env termEnv, what string) *Form {
+	var res []*Form
+	prefix := entry
+	for k := range el.Elems {
+		undo := el.bind(k)
+		memo := map[*ssa.BasicBlock]*Form{}
+		var cond func(b *ssa.BasicBlock) *Form
+		edge := func(q, b *ssa.BasicBlock) *Form {
+			if callsNoReturn(q) {
+				return fFalse()
+			}
+			c := cond(q)
+			if q == el.Header {
+				return c
+			}
+			if iff, ok := q.Instrs[len(q.Instrs)-1].(*ssa.If); ok && q.Succs[0] != q.Succs[1] {
+				ec := s.ValueForm(iff.Cond, env)
+				if u, why := ec.HasUnknown(); u {
+					if os.Getenv("ENUM_DEBUG") != "" {
+						fmt.Println("enumExit: dropped", why)
+					}
+					s.Inexact = append(s.Inexact, fmt.Sprintf("%s: branch condition dropped in an unrolled loop (%s)", what, why))
+					s.InexactIn = append(s.InexactIn, ec.UnknownIn())
+					s.noteDropped(iff.Cond, q.Succs[0] == b, env)
+				} else {
+					if q.Succs[1] == b {
+						ec = fNot(ec)
+					}
+					c = fAnd(c, ec)
+				}
+			}
+			return c
+		}
+		cond = func(b *ssa.BasicBlock) *Form {
+			if f, ok := memo[b]; ok {
+				return f
+			}
+			if b == el.Header {
+				return fTrue()
+			}
+			memo[b] = fFalse() // cycles cannot occur (no nested loops); guard anyway
+			var alts []*Form
+			for _, q := range b.Preds {
+				if el.Blocks[q] {
+					alts = append(alts, edge(q, b))
+				}
+			}
+			f := fOr(alts...)
+			if len(alts) == 1 {
+				f = alts[0]
+			}
+			memo[b] = f
+			return f
+		}
+		if p != el.Header {
+			res = append(res, fAnd(prefix, edge(p, x)))
+		}
+		// going round again: the back edges
+		var back []*Form
+		for _, q := range el.Header.Preds {
+			if el.Blocks[q] {
+				back = append(back, edge(q, el.Header))
+			}
+		}
+		prefix = fAnd(prefix, fOr(back...))
+		undo()
+	}
+	if p == el.Header {
+		return prefix
+	}
+	return fOr(res...)
+}
+
+func loopHeaders(fn *ssa.Function) []*ssa.BasicBlock {
+	seen := map[*ssa.BasicBlock]bool{}
+	var out []*ssa.BasicBlock
+	for _, b := range fn.Blocks {
+		for _, su := range b.Succs {
+			if su.Dominates(b) && !seen[su] {
+				seen[su] = true
+				out = append(out, su)
+			}
+		}
+	}
+	return out
 }
 
 func (s *Summarizer) phiForm(phi *ssa.Phi, env termEnv) *Form {
@@ -1948,9 +2090,36 @@ func (s *Summarizer) scanLoopsOf(fn *ssa.Function, env termEnv) ([]*scanLoop, bo
 	}
 	loops, done := s.loopCache[fn]
 	ok := s.loopOK[fn]
+	paramDep := false
 	if !done {
 		loops, ok = findScanLoops(s.prog, fn)
-		s.loopCache[fn], s.loopOK[fn] = loops, ok
+		if !ok {
+			// loops over constant collections are unrolled
+			loops, ok = nil, true
+			delete(s.enumLoops, fn)
+			if s.enumLoops == nil {
+				s.enumLoops = map[*ssa.Function][]*enumLoop{}
+			}
+			for _, h := range loopHeaders(fn) {
+				if l := scanLoopAt(s.prog, fn, h); l != nil {
+					loops = append(loops, l)
+				} else if el := enumLoopAt(s.prog, fn, h, s); el != nil {
+					s.enumLoops[fn] = append(s.enumLoops[fn], el)
+					if el.ParamDependent {
+						paramDep = true
+					}
+				} else {
+					ok = false
+				}
+			}
+			if !ok {
+				loops = nil
+				delete(s.enumLoops, fn)
+			}
+		}
+		if !paramDep {
+			s.loopCache[fn], s.loopOK[fn] = loops, ok
+		}
 	}
 	if !ok {
 		return nil, false
